@@ -589,6 +589,8 @@ func exec(t []string) string {
 		lastExpect = iTruth(id)
 		r, _ := iFetch(id)
 		return r
+	case "rgflow":
+		return execReorg(t[1] == "1")
 	case "x.reset":
 		xReset(atoi(t[1]), t[2] == "1")
 		return "ok"
@@ -772,6 +774,10 @@ func oracle(t []string, out string) *hx.Violation {
 		if atoi(field(out, "ntx")) > U.max+1 {
 			return bad("utxo-txcache-over-limit", fmt.Sprintf("%s transactions cached, limit %d", field(out, "ntx"), U.max+1))
 		}
+	case "rgflow":
+		if field(out, "after") != rgExpectAfter {
+			return bad("utxo-cache-stale", "after the node reorganised, GetTxReference answers "+field(out, "after")+" but the store lookup says "+rgExpectAfter)
+		}
 	case "x.fetch":
 		if answer(out) != lastExpect {
 			return bad("txcache-stale", "UnspentIndex.FetchTx answers "+answer(out)+", a cache-less index on the same database "+lastExpect)
@@ -813,7 +819,7 @@ func oracle(t []string, out string) *hx.Violation {
 
 func nontrivial(t []string, out string) bool {
 	return strings.Contains(out, "hit") || (strings.HasPrefix(t[0], "u.") && strings.HasPrefix(out, "ok ")) ||
-		strings.HasPrefix(t[0], "b.get") || strings.HasPrefix(t[0], "s.write")
+		strings.HasPrefix(t[0], "b.get") || t[0] == "rgflow" || strings.HasPrefix(t[0], "s.write")
 }
 
 func bucket(t []string, out string) string {
